@@ -17,11 +17,11 @@ for c in sorted(m['checks'],key=lambda c:c['property_id']):
     cl=sorted(set(finds[p])); n=len(finds[p])
     rows.append('| %s | %s | %s | %d classes / %d lines | %d |'%(p,c['level_claimed']['category'],c['engine'],len(cl),n,len(fixed[p])))
 state='\n'.join(rows)
-seeds=['| seeded change | property | needs | result |','|---|---|---|---|']
+seeds=['| seeded change | property | needs | result when first tried | after strengthening (only where the first try missed) |','|---|---|---|---|---|']
 for d in sorted(glob.glob('/verif/seeded/*/meta.json')):
     j=json.load(open(d)); name=os.path.basename(os.path.dirname(d))
     def one(x): return re.sub(r'\s+',' ',str(x or '')).replace('|','\\|')[:260]
-    seeds.append('| %s | %s | %s | %s |'%(name,j.get('property'),one(j.get('needs')),one(j.get('detection'))))
+    seeds.append('| %s | %s | %s | %s | %s |'%(name,j.get('property'),one(j.get('needs')),one(j.get('detection')),one(j.get('after_strengthening'))))
 seedt='\n'.join(seeds)
 log=subprocess.run(['git','-C','/repo','log','--format=%h %s'],capture_output=True,text=True).stdout.splitlines()
 fixes=[l for l in log if ' fix:' in l]
